@@ -222,7 +222,7 @@ def run (ctx):
       elif isinstance(v, ast.List) and not v.elts: clears.append(n)
       else: ctx.bad('R-EFFECT', isr, "pending-parts store `%s`" % norm(st), "the pending part list is set to something other than [] or [%s]" % ofp, (mod, st), 'D3')
   hcalls = g.nodes_with_call(lambda c: isinstance(c.func, ast.Name) and c.func.id == 'handler')
-  ctx.floor('reassembly sites (append, replace, clear, handler)', len(appends) + len(repl) + len(clears) + len(hcalls), 5)
+  ctx.floor('reassembly sites (append, replace, clear, handler)', len(appends) + len(repl) + len(clears) + len(hcalls), 3)
   for x in extends:
     ctx.bad('R-EFFECT', isr, "pending parts grow only by appending the new part", "`%s`" % x.text(50), (mod, x.ast), 'D3')
   # the clear that happens right before the handler is part of the last-reply branch; locate the branch point after the bookkeeping
@@ -237,19 +237,52 @@ def run (ctx):
     ms.append((lambda e: isinstance(e, ast.Compare) and isinstance(e.ops[0], ast.In) and norm(e.left) == ofp + '.type', True))
     return q.Env(ex, ms)
   n_dec = 0
+  # by value: P0 (xid 7, flow stats) is pending; a further, non-final part arrives.  What does the pending list hold afterwards?
+  T_FLOW = repo.try_const(mod, ast.parse('of.OFPST_FLOW', mode='eval').body, con, default=1)
+  T_PORT = 4
+  def after (xid_eq, type_eq, pending, last):
+    P0 = q.Rec(name='P0', xid=7, type=T_FLOW if type_eq else T_PORT, is_last_reply=False)
+    NEWP = q.Rec(name='NEW', xid=7 if xid_eq else 8, type=T_FLOW, is_last_reply=last)
+    ex = {ofp: NEWP, PS: [P0] if pending else []}
+    outs = set()
+    for p_, e_ in q.paths_under(repo, mod, g, q.Env(ex, []), g.entry, [g.exit], con, limit=80):
+      v_ = e_.exact.get(PS, '?')
+      outs.add(tuple(x['name'] if isinstance(x, q.Rec) else '?' for x in v_) if isinstance(v_, list) else '?')
+    return outs
   for xe in (True, False):
     for te in (True, False):
-      r = q.reach_under(repo, mod, g, env(xe, te, True, False), con)
-      ap = [n for n in appends if n in r]; rp = [n for n in repl if n in r]
       cont = xe and te
-      good = (bool(ap) and not rp) if cont else (bool(rp) and not ap)
+      got = after(xe, te, True, False)
       n_dec += 1
+      want = {('P0', 'NEW')} if cont else {('NEW',)}
+      if not got or any('?' in x or x == '?' for x in got):
+        ctx.undecided('R-DOM', isr, "pending sequence + part with %s xid and %s type -> %s" % ('same' if xe else 'different', 'same' if te else 'different', 'appended' if cont else 'starts a new sequence'), "pending list after the part not evaluable (%s)" % sorted(map(str, got)), isr, 'D3'); continue
+      good = got == want
       ctx.ob('R-DOM', isr, "pending sequence + part with %s xid and %s type -> %s" % ('same' if xe else 'different', 'same' if te else 'different', 'appended' if cont else 'starts a new sequence'), good,
-             "as required" if good else ("a part belonging to a different request (%s) is appended to the pending parts: entries of two requests are merged into one event" % ("xid differs" if not xe else "type differs") if ap and not cont else
-             "append reachable: %s, replace reachable: %s" % (bool(ap), bool(rp))), isr, 'D3')
-  r = q.reach_under(repo, mod, g, env(True, True, False, False), con)
-  good = any(n in r for n in repl) and not any(n in r for n in appends)
-  ctx.ob('R-DOM', isr, "with nothing pending the part starts a new sequence", good, "replaced by [part]" if good else "append reachable with an empty pending list", isr, 'D3')
+             "pending list becomes %s" % sorted(want) if good else ("a part belonging to a different request (%s) is appended to the pending parts: entries of two requests are merged into one event (pending list becomes %s)" % ("xid differs" if not xe else "type differs", sorted(got)) if not cont and any(len(x) > 1 for x in got) else
+             "pending list becomes %s, expected %s" % (sorted(got), sorted(want))), isr, 'D3')
+  got0 = after(True, True, False, False)
+  if got0 and not any('?' in x or x == '?' for x in got0):
+    ctx.ob('R-DOM', isr, "with nothing pending the part starts a new sequence", got0 == {('NEW',)}, "pending list becomes [part]" if got0 == {('NEW',)} else "with an empty pending list the part leaves %s" % sorted(got0), isr, 'D3')
+  else:
+    ctx.undecided('R-DOM', isr, "with nothing pending the part starts a new sequence", "not evaluable", isr, 'D3')
+  # the pending list belongs to one connection: a mutable kept at class level and changed in place through self is shared by
+  # every connection (parts of different switches' replies would be merged)
+  for cls_ in (con, pc):
+    init_ = cls_.methods.get('__init__')
+    inst = set(t.attr for t, v, st, k in q.stores_in(init_.node) if isinstance(t, ast.Attribute) and norm(t.value) == 'self') if init_ is not None else set()
+    for stc in cls_.node.body:
+      if not (isinstance(stc, ast.Assign) and len(stc.targets) == 1 and isinstance(stc.targets[0], ast.Name)): continue
+      v = stc.value
+      mutable = isinstance(v, (ast.List, ast.Dict, ast.Set)) or (isinstance(v, ast.Call) and isinstance(v.func, ast.Name) and v.func.id in ('list', 'dict', 'set', 'deque', 'defaultdict'))
+      if not mutable: continue
+      nm_ = stc.targets[0].id
+      if nm_ in inst: continue
+      muts = [(f_, k_, s_) for f_ in cls_.methods.values() for k_, s_ in q.mutations_of_attr(f_.node, nm_) if k_.startswith('call:') or k_ in ('setitem', 'delitem', 'augassign')]
+      if muts:
+        f_, k_, s_ = muts[0]
+        ctx.bad('R-OWN', cls_, "per-connection state `%s` is created per instance" % nm_,
+                "`%s = %s` is a class attribute and __init__ does not give the instance its own; %s changes it in place (%s): every %s shares one object - multipart replies of different switches are appended to the same list" % (nm_, norm(v), f_.name, k_, cls_.name), (mod, stc), 'D3')
   # handler only for the last part
   r = q.reach_under_cp(repo, mod, g, env(True, True, True, False), con)
   ctx.ob('R-DOM', isr, "no aggregate event before the final part", not any(h in r for h in hcalls), "handler unreachable when more parts follow" if not any(h in r for h in hcalls) else "the aggregate handler runs for a non-final part", isr, 'D3')
@@ -257,17 +290,29 @@ def run (ctx):
   ctx.ob('R-DOM', isr, "the final part triggers the aggregate event", any(h in r for h in hcalls), "handler reachable", isr, 'D3')
   iv = g.interval(lambda n: n in hcalls)
   ctx.ob('R-EFFECT', isr, "at most one aggregate event per part", iv is not None and iv[1] <= 1, "handler call count %s" % (iv,), isr, 'D3')
-  for h in hcalls:
-    good = any(g.dominates(c, h) for c in clears)
-    ctx.ob('R-ORDER', isr, "pending parts are reset before the aggregate handler runs", good, "reset dominates the call" if good else
-           "the handler is called with the pending list still set: a handler that triggers another reply sees stale parts / parts are delivered twice", (mod, h.ast), 'D3')
-    c = [c for c in q.node_calls(h) if isinstance(c.func, ast.Name) and c.func.id == 'handler'][0]
-    sv = c.args[1] if len(c.args) > 1 else None
-    d = q.single_def(isr.node, sv.id) if isinstance(sv, ast.Name) else None
-    good = d is not None and norm(d) == PS
-    sdn = [q.enclosing_stmt_node(g, st) for t, v, st, k in q.stores_in(isr.node) if isinstance(t, ast.Name) and sv is not None and t.id == norm(sv)]
-    good = good and bool(sdn) and any(g.dominates(sdn[0], cl) and g.dominates(cl, h) for cl in clears)
-    ctx.ob('R-AGREE', isr, "the handler receives the parts saved before the reset", good, "s = pending; pending = []; handler(self, s)" if good else "handler argument %s is not the saved part list" % norm(sv), (mod, h.ast), 'D3')
+  # by value: P0 pending, the final part NEW arrives -> the handler gets [P0, NEW] and, at that moment, the pending list is already empty
+  def final_call ():
+    P0 = q.Rec(name='P0', xid=7, type=T_FLOW, is_last_reply=False); NEWP = q.Rec(name='NEW', xid=7, type=T_FLOW, is_last_reply=True)
+    seen = []
+    def hook (call, env=None):
+      if call_name(call) == 'get' and 'statsHandlerMap' in norm(call.func.value): return (True, 'H')
+      return (False, None)
+    def on_node (n, e):
+      for c in q.node_calls(n):
+        if isinstance(c.func, ast.Name) and c.func.id == 'handler' and len(c.args) > 1:
+          try: lst = q.eval_env2(repo, mod, c.args[1], e, con); seen.append((tuple(x['name'] if isinstance(x, q.Rec) else '?' for x in lst), tuple(e.exact.get(PS, ('?',)))))
+          except Exception: seen.append('?')
+    q.paths_under(repo, mod, g, q.Env({ofp: NEWP, PS: [P0]}, [((lambda e: isinstance(e, ast.Subscript) and 'statsHandlerMap' in norm(e.value)), 'H')], hook), g.entry, [g.exit], con, limit=80, on_node=on_node)
+    return seen
+  fc = final_call()
+  if fc and '?' not in fc:
+    good = all(args == ('P0', 'NEW') for args, pend in fc)
+    ctx.ob('R-AGREE', isr, "the handler receives the parts saved before the reset", good, "handler(self, [P0, NEW])" if good else "with P0 pending and the final part NEW the handler is called with %s" % [a_ for a_, p_ in fc], isr, 'D3')
+    good = all(pend == () for args, pend in fc)
+    ctx.ob('R-ORDER', isr, "pending parts are reset before the aggregate handler runs", good, "pending list is empty when the handler is called" if good else
+           "the handler is called with the pending list still set: a handler that triggers another reply sees stale parts / parts are delivered twice", isr, 'D3')
+  else:
+    ctx.undecided('R-AGREE', isr, "the handler receives the parts saved before the reset", "handler call not evaluable on the sample (%s)" % fc[:2], isr, 'D3')
   hm = q.single_def(isr.node, 'handler')
   good = hm is not None and 'statsHandlerMap' in norm(hm) and '[0].type' in norm(hm)
   ctx.ob('R-AGREE', isr, "aggregate handler chosen by the sequence's stats type", good, norm(hm) if hm is not None else "?", isr, 'D3')
